@@ -324,7 +324,7 @@ type candidate struct {
 	text  string
 }
 
-func (c candidate) build(reps []polyRep, perm []int, tx, ty int, flip bool) geom.Geometry {
+func (c candidate) build(reps []polyRep, perm []int, tx, ty int, flip bool, emptyAt ...int) geom.Geometry {
 	ps := make([]geom.Polygon, len(c.polys))
 	for i, pi := range perm {
 		p := c.polys[pi]
@@ -339,6 +339,12 @@ func (c candidate) build(reps []polyRep, perm []int, tx, ty int, flip bool) geom
 	}
 	if c.kind == "Polygon" {
 		return ps[0].AsGeometry()
+	}
+	for _, at := range emptyAt { // empty members at the given positions
+		if at > len(ps) {
+			at = len(ps)
+		}
+		ps = append(ps[:at], append([]geom.Polygon{{}}, ps[at:]...)...)
 	}
 	return geom.NewMultiPolygon(ps).AsGeometry()
 }
@@ -451,6 +457,7 @@ func judge(k *run.K, c candidate, nreps int, allStartsDirs bool) {
 		tx, ty      int
 		flip        bool
 		description string
+		emptyAt     []int
 	}
 	var rcs []repCase
 	if allStartsDirs && len(c.polys) == 1 {
@@ -460,7 +467,7 @@ func judge(k *run.K, c candidate, nreps int, allStartsDirs bool) {
 		rec = func(h int, cur polyRep) {
 			if h == len(p) {
 				cp := polyRep{rot: append([]int(nil), cur.rot...), rev: append([]bool(nil), cur.rev...), holePerm: cur.holePerm}
-				rcs = append(rcs, repCase{[]polyRep{cp}, []int{0}, 0, 0, false, "all starts/directions"})
+				rcs = append(rcs, repCase{reps: []polyRep{cp}, perm: []int{0}, description: "all starts/directions"})
 				return
 			}
 			for s := 0; s < len(p[h])-1; s++ {
@@ -481,13 +488,26 @@ func judge(k *run.K, c candidate, nreps int, allStartsDirs bool) {
 			rc.tx, rc.ty = k.Rng.Range(-1000, 1000), k.Rng.Range(-1000, 1000)
 		}
 		rc.flip = k.Rng.Bool()
+		if c.kind == "MultiPolygon" && k.Rng.Chance(1, 3) { // empty members are transparent
+			for ne := k.Rng.Range(1, 2); ne > 0; ne-- {
+				rc.emptyAt = append(rc.emptyAt, k.Rng.Intn(len(c.polys)+1))
+			}
+		}
 		rcs = append(rcs, rc)
 	}
 	for _, rc := range rcs {
-		g := c.build(rc.reps, rc.perm, rc.tx, rc.ty, rc.flip)
+		g := c.build(rc.reps, rc.perm, rc.tx, rc.ty, rc.flip, rc.emptyAt...)
 		var e error
 		if k.Lib("nopanic", func() { e = g.Validate() }) {
 			continue
+		}
+		if len(rc.emptyAt) > 0 {
+			ve := oracleOf(g)
+			k.Count("representations_with_empty_members", 1)
+			if ve.Inconsistent != "" || ve.OK != v.OK {
+				k.Count("empty_member_oracle_differs", 1)
+				continue
+			}
 		}
 		shared.ConcreteAgree(k, g, "concrete-entry", []shared.Call{{Method: "Validate"}, {Method: "IsSimple"}}, nil)
 		k.CheckClass("repr-invariance", class, (e == nil) == (verr == nil), "verdict depends on the representation: %v for %s but %v for %s", verr, g0.AsText(), e, g.AsText())
@@ -783,6 +803,25 @@ func nonfiniteCase(k *run.K) {
 		k.Check("nonfinite", verr != nil, "a geometry with %v in X/Y passes Validate (%s ordinate %d)", bad, g.Type(), pos)
 	} else {
 		k.Check("nonfinite", verr == nil, "%v in Z/M makes Validate fail: %v", bad, verr)
+	}
+	// the binary decoders gate on the same rule (text formats cannot spell a non-finite ordinate)
+	var wkb []byte
+	if k.Lib("nopanic", func() { wkb = g.AsBinary() }) {
+		return
+	}
+	for _, name := range []string{"UnmarshalWKB", "Geometry.Scan"} {
+		var e error
+		if k.Lib("nopanic", func() {
+			if name == "UnmarshalWKB" {
+				_, e = geom.UnmarshalWKB(wkb)
+			} else {
+				var x geom.Geometry
+				e = x.Scan(wkb)
+			}
+		}) {
+			continue
+		}
+		k.Check("nonfinite", (e != nil) == inXY, "%s returned %v for a %s with %v at ordinate %d (in X/Y: %v)", name, e, g.Type(), bad, pos, inXY)
 	}
 }
 
